@@ -25,6 +25,15 @@ def cases(ck, cfg, label):
 def run(ck):
     q = ck.quick()
     rnd = random.Random(ck.seed)
+    # ---- the reader as a design ------------------------------------------------------------------------------
+    for cfg, label in (("Reader.cfg", "reader design: five messages, every chunking from {1,2,5,13}, safety and progress"),
+                       ("ReaderLong.cfg", "reader design: a head above the line limit is refused within limit + one buffer")):
+        ck.model(ck.tlc("rtspwire", "MCWireReader", cfg, timeout=900, label=label))
+    for cfg, inv, label in (("ReaderNegBody.cfg", "Faithful", "body read with a single Read (seeded change C14-3)"),
+                            ("ReaderNegLine.cfg", "BoundedAlways", "no line limit (as found before 2bda9a1)")):
+        neg = ck.tlc("rtspwire", "MCWireReader", cfg, must_pass=False, timeout=900, label="negative control: " + label)
+        if inv not in neg.violated:
+            raise Infra("negative control %s does not violate %s (violated: %s)" % (cfg, inv, neg.violated))
     single = cases(ck, "Wire_single.cfg", "every message shape alone x chunking")
     pair = cases(ck, "Wire_pair.cfg", "pairs over the reduced shape set x chunking")
     if len(single) < 3500 or len(pair) < 7000:
@@ -118,8 +127,8 @@ def run(ck):
 
 
 META = {
-    "text": "WireCases.tla: 3.2k single-message cases (every request / response / frame shape x 6 chunkings), 7.3k pairs and 257k triples over a reduced shape set (quick: all singles, 2500 pairs, 1500 sampled triples; thorough: all pairs, 30k triples). WireFaults.tla: 510 fault cases expanding to 8k runs (truncation at every offset behind a complete message, 9 replacement bytes at every offset of the head, endless first / header / status line, 12 Content-Length texts x request / response, 400 garbage seeds in four flavours, short RTP frames). All through the real dispatcher of service/rtsp (exported under the verif tag) on a chunking reader that knows how many bytes were consumed; TLC validates against RtspWire.tla: kind, request line, status line, header fields, body, channel and payload equal, reader positioned exactly at the next message after each one, every message yielded and only EOF at the end; damaged input never panics or hangs, a truncated message is not yielded, an endless line is refused within 70 KB, an absurd Content-Length is refused without allocating it, a refused frame leaves the stream positioned.",
+    "text": "WireReader.tla models the connection reader (peek four bytes, consume head and body as chunks arrive) and TLC checks Positioned / Faithful / Bounded and progress for every chunking, with two negative controls (body taken from a single Read; no line limit). WireCases.tla: 3.2k single-message cases (every request / response / frame shape x 6 chunkings), 7.3k pairs and 257k triples over a reduced shape set (quick: all singles, 2500 pairs, 1500 sampled triples; thorough: all pairs, 30k triples). WireFaults.tla: 510 fault cases expanding to 8k runs (truncation at every offset behind a complete message, 9 replacement bytes at every offset of the head, endless first / header / status line, 12 Content-Length texts x request / response, 400 garbage seeds in four flavours, short RTP frames). All through the real dispatcher of service/rtsp (exported under the verif tag) on a chunking reader that knows how many bytes were consumed; TLC validates against RtspWire.tla: kind, request line, status line, header fields, body, channel and payload equal, reader positioned exactly at the next message after each one, every message yielded and only EOF at the end; damaged input never panics or hangs, a truncated message is not yielded, an endless line is refused within 70 KB, an absurd Content-Length is refused without allocating it, a refused frame leaves the stream positioned.",
     "note": "Trusted: TLC, RtspWire.tla, the independent serialiser and the chunking reader in harness/c14. Four genuine defects were repaired (line limit, Content-Length bound, truncated body, see KNOWN_FINDINGS.json).",
-    "technique": "TLA+ enumeration of the message-sequence / chunking / fault space; real dispatcher driven on a position-tracking reader; TLC trace validation against a TLA+ acceptor",
+    "technique": "TLA+ model of the reader checked by TLC with negative controls; TLA+ enumeration of the message-sequence / chunking / fault space; real dispatcher driven on a position-tracking reader; TLC trace validation against a TLA+ acceptor",
     "specs": ["rtspwire"],
 }
